@@ -140,6 +140,7 @@ class PermutationReciprocalTransformer(BaseReciprocalTransformer):
         for u in perm_keys:
             perm[u] = lin[perm[u]]
         self.permutation_ = perm
+        return self
 
     def _check_is_fitted(self):
         if not hasattr(self, "permutation_"):
